@@ -131,7 +131,7 @@ func serveReuse(p *Program, sids [2]string, store dbLike, inputs [2][]string, ps
 	return obs
 }
 
-var refusedInputs = []string{"\x00", " 1", "*", "_", "<", "-1", "\xff", "\n", "é"}
+var refusedInputs = []string{"\x00", " 1", "*", "_", "<", "-1", "\xff", "\n", "é", "1\n", "0\r\n", "bob\nmallory", "2\n2"}
 
 // vise-pairs <trace-out> <programs> <sessions-per-program> <max-requests> <stores: mem[,fs][,pg]>
 func cmdVisePairs(args []string) error {
